@@ -308,7 +308,7 @@ async def sweep_hook_scenario(yield_in_hook):
         esme._session_state = esme.bind_mode.session_state
         gate = loop.create_future()
         if yield_in_hook:
-            hook.error_gate = lambda m, e: gate
+            hook.error_gate = lambda m, e: asyncio.shield(gate)
         a = SubmitSm(short_message='old', source=PhoneNumber('1'), destination=PhoneNumber('2'), log_id='LOGA')
         await esme._send_data(a)
         clock['t'] = 100.0 + esme.correlator.max_ttl_response + 1.0          # A is overdue now
@@ -317,7 +317,12 @@ async def sweep_hook_scenario(yield_in_hook):
         await sess.settle()
         pdu = SubmitSmResp(sequence_num=b.sequence_num, message_id='idB').pdu()
         clock['t'] += 0.5
-        res = await esme._handle_response(pdu, SmppMessage.parse_header(pdu))
+        try:
+            # (real seconds) the response must be handled while the hook is suspended: nothing in its way needs the hook to return
+            res = await asyncio.wait_for(esme._handle_response(pdu, SmppMessage.parse_header(pdu)), 3.0)
+        except asyncio.TimeoutError:
+            res = None
+            clock['handler_blocked'] = True
         if not gate.done():
             gate.set_result(None)
         await sess.settle()
@@ -327,7 +332,7 @@ async def sweep_hook_scenario(yield_in_hook):
         await esme.correlator.put(EnquireLink(sequence_num=999999))
         to_a = [e for e in hook.log if e[0] == 'send_error' and getattr(e[1], 'log_id', '') == 'LOGA']
         to_b = [e for e in hook.log if e[0] == 'send_error' and getattr(e[1], 'log_id', '') == 'LOGB']
-        return getattr(res, 'log_id', ''), len(to_a), len(to_b)
+        return ('<the response handler waited for the suspended send_error hook>' if clock.get('handler_blocked') else getattr(res, 'log_id', '')), len(to_a), len(to_b)
     finally:
         cm.time = old
 
